@@ -45,6 +45,7 @@ fn observe(c: &Case) -> Obs {
     pest::set_call_limit(c.lim.and_then(NonZeroUsize::new));
     pest::set_error_detail(c.det);
     let cx = Ctx::new(&c.env, 4000);
+    *cx.input.borrow_mut() = Some(c.input.clone());
     let r = catch(|| {
         let s = pest::ParserState::<R>::new(&c.input);
         match run(&c.prog, s, &cx) { Ok(s) => (true, s.verif_dump()), Err(s) => (false, s.verif_dump()) }
@@ -157,7 +158,7 @@ fn main() {
             let maxlen = arg_u64(2, 3) as usize;
             let mut rng = Rng::new(7);
             let mut leaves: Vec<Prog> = vec![Prog::Ok, Prog::Err, Prog::Str("a".into()), Prog::Str("ab".into()), Prog::Str("é".into()), Prog::Str("".into()),
-                Prog::Ins("b".into()), Prog::Range('a', 'b'), Prog::Cls(vec![('\0', '\u{10ffff}')]), Prog::Skip(1), Prog::Until(vec!["b".into()]),
+                Prog::Ins("b".into()), Prog::Range('a', 'b'), Prog::Range('a', 'ÿ'), Prog::Range('B', 'è'), Prog::Cls(vec![('\0', '\u{10ffff}')]), Prog::Skip(1), Prog::Until(vec!["b".into()]),
                 Prog::Until(vec!["a".into(), "é".into()]), Prog::Until(vec!["b".into(), "a".into(), "".into()]), Prog::Soi, Prog::Eoi,
                 Prog::PushLit("a".into()), Prog::Pop, Prog::Peek, Prog::Drop, Prog::MPeek, Prog::MPop, Prog::Slice(0, Some(1), true), Prog::Tag(1)];
             let _ = &mut rng;
